@@ -317,6 +317,8 @@ func c09(c *core.Check) {
 		}
 	}
 	c09Spans(c)
+	r6 := c.Rule("R6", "no call passes two same-typed arguments under each other's parameter names (swapped arguments): every pair of arguments named after the callee's parameters is aligned with them", 7)
+	argNameRule(c, r6, "html/boxes", nil, 7)
 }
 
 // c09Spans: a table cell spans at least one column (HTML 5: colspan is clamped to >= 1), while rowspan may be 0.
@@ -588,6 +590,9 @@ func c11(c *core.Check) {
 	sideSymmetryRule(c, r3, "html/layout", map[string]bool{"inline.go": true, "leader.go": true}, 1)
 	r4 := c.Rule("R4", "box-edge sums of the inline layout code mention margin, padding and border with the same sides", 5)
 	sideSumRule(c, r4, "html/layout", map[string]bool{"inline.go": true, "leader.go": true}, 5)
+	r5 := c.Rule("R5", "no call passes two same-typed arguments under each other's parameter names (swapped arguments): every pair of arguments named after the callee's parameters is aligned with them", 45)
+	argNameRule(c, r5, "html/layout", map[string]bool{"inline.go": true, "leader.go": true}, 40)
+	argNameRule(c, r5, "text", nil, 5)
 
 }
 
@@ -708,4 +713,6 @@ func c12(c *core.Check) {
 
 	r3 := c.Rule("R3", "box-edge sums of the fragmentation code (the space kept at the bottom of a page for paddings and borders, page margins) mention margin, padding and border with the same sides", 7)
 	sideSumRule(c, r3, "html/layout", map[string]bool{"blocks.go": true, "pages.go": true, "columns.go": true}, 7)
+	r4b := c.Rule("R4", "no call passes two same-typed arguments under each other's parameter names (swapped arguments): every pair of arguments named after the callee's parameters is aligned with them", 40)
+	argNameRule(c, r4b, "html/layout", map[string]bool{"blocks.go": true, "pages.go": true, "columns.go": true}, 40)
 }
